@@ -122,6 +122,9 @@ Definition markers_ok (g : list packet) : Prop :=
 Lemma frag_pkts_len seq ts cs : forall ft pc, nlen (frag_pkts seq ts ft pc cs) = nlen cs.
 Proof. revert seq; induction cs as [|x t IH]; intros seq ft pc; cbn [frag_pkts nlen]; [reflexivity|]. now rewrite IH. Qed.
 
+Lemma frag_pkts_length seq ts cs : forall ft pc, length (frag_pkts seq ts ft pc cs) = length cs.
+Proof. revert seq; induction cs as [|x t IH]; intros seq ft pc; cbn [frag_pkts length]; [reflexivity|]. now rewrite IH. Qed.
+
 Lemma frag_pkts_wf ts pc cs : forall seq ft, seq < 65536 ->
   seqs_ok seq (frag_pkts seq ts ft pc cs) /\ markers_ok (frag_pkts seq ts ft pc cs) /\
   Forall (fun p => pts p = ts /\ exists x, In x cs /\ psize p = 2 + nlen x) (frag_pkts seq ts ft pc cs).
@@ -150,7 +153,7 @@ Proof.
   intros Hb Hs Hne.
   assert (Hagg : len_agg b None <= max ->
      exists g, Some (write_agg b ts seq) = Some g /\ group_ok g /\ seqs_ok seq g /\ Forall (fun p => pts p = ts) g).
-  { intros Hle. eexists. split; [reflexivity|]. splits.
+  { intros Hle. eexists. split; [reflexivity|]. unfold group_ok. splits.
     - discriminate.
     - intros i p H. unfold write_agg in H. cbn [nnth] in H. destruct (N.eqb_spec i 0) as [->|]; [|discriminate].
       injection H as <-. reflexivity.
@@ -167,7 +170,7 @@ Proof.
       assert (Hav : 0 < max - 4) by lia.
       set (ft := if nlen a * 5 / 8 <=? max - 4 then 1 else 2).
       destruct (frag_pkts_wf ts (nlen (chunks (max - 4) a)) (chunks (max - 4) a) seq ft Hs) as (H1 & H2 & H3).
-      eexists. split; [reflexivity|]. splits.
+      eexists. split; [reflexivity|]. unfold group_ok. splits.
       * rewrite chunks_cons by assumption. discriminate.
       * exact H2.
       * eapply Forall_impl; [|exact H3]. intros p (_ & x & Hx & Hsz).
@@ -280,3 +283,551 @@ Proof.
 Qed.
 
 End E.
+
+(* ====================================================================================== *)
+(* ---------- decoder, under the contract of the syncinfo parser ---------- *)
+Section D.
+Variable ac3 : bytes -> pres.
+Variable FL : N.      (* the largest frame size the parser can announce *)
+Hypothesis K_np  : forall b, ac3 b <> PPanic.
+Hypothesis K_pos : forall b sz, ac3 b = POk sz -> 0 < sz.
+Hypothesis K_len : forall b sz, ac3 b = POk sz -> 5 <= nlen b.
+Hypothesis K_max : forall b sz, ac3 b = POk sz -> sz <= FL.
+
+Notation dec := (dec ac3).
+Notation dec_run := (dec_run ac3).
+Notation agg_loop := (agg_loop ac3).
+
+Definition fsize (f : list bytes) : N := nlen (concat f).
+Definition psz (p : packet) : N := nlen (ppayload p).
+
+Lemma agg_loop_spec fuel : forall buf frames, nlen buf < nlen fuel ->
+  match agg_loop fuel buf frames with
+  | APanic => False
+  | ADone fs => fsize fs <= fsize frames + nlen buf
+  | AErr => True
+  end.
+Proof.
+  induction fuel as [|f0 fuel IH]; intros buf frames Hf; [cbn [nlen] in Hf; lia|].
+  cbn [Model.agg_loop]. pose proof (K_np buf) as Hnp.
+  destruct (ac3 buf) as [sz| |] eqn:E; [|exact I|congruence].
+  pose proof (K_pos _ _ E) as Hpos.
+  destruct (N.ltb_spec (nlen buf) sz) as [|Hle]; [exact I|].
+  assert (Htk : nlen (ntake sz buf) = sz) by (rewrite nlen_ntake; lia).
+  assert (Hdr : nlen (ndrop sz buf) = nlen buf - sz) by apply nlen_ndrop.
+  destruct (ndrop sz buf) as [|y yt] eqn:Ed.
+  - unfold fsize. rewrite concat_snoc, nlen_app, Htk. lia.
+  - specialize (IH (y :: yt) (frames ++ [ntake sz buf])). cbn [nlen] in Hf.
+    destruct (agg_loop fuel (y :: yt) (frames ++ [ntake sz buf])).
+    + unfold fsize in *. rewrite concat_snoc, nlen_app, Htk in IH. lia.
+    + exact I.
+    + apply IH. lia.
+Qed.
+
+(* while fragments are pending, fragmentsSize + fragmentsExpected is the announced frame size *)
+Definition Inv (d : dstate) : Prop :=
+  dsize d = nlen (concat (dfrags d)) /\ (dsize d = 0 -> dfrags d = []) /\
+  (0 < dsize d -> exists S, S <= FL /\ (Z.of_N (dsize d) + dexp d = Z.of_N S)%Z).
+Definition clean (d : dstate) : Prop := dsize d = 0 /\ dfrags d = [].
+
+Lemma inv_clean fi ex nx : Inv (mkD fi [] 0 ex nx).
+Proof. unfold Inv; cbn. splits; auto; lia. Qed.
+Lemma inv_init : Inv dinit.
+Proof. apply inv_clean. Qed.
+Lemma inv_reset d : Inv (dreset d).
+Proof. apply inv_clean. Qed.
+
+(* one Decode call: invariant, no panic / endless loop, retained BYTES and returned sizes bounded.
+   (No bound on the number of retained slice headers is claimed: there is none, see slices_unbounded.) *)
+Lemma dec_step P d p : Inv d -> dsize d <= N.max FL P -> psz p <= P ->
+  let '(d', r) := dec d p in
+  Inv d' /\ dsize d' <= N.max FL P /\ r <> DPanic /\ (forall f, r = DFrame f -> fsize f <= N.max FL P).
+Proof.
+  intros HI HB HP.
+  assert (Hreset : Inv (dreset d) /\ dsize (dreset d) <= N.max FL P /\ @DErr (list bytes) <> DPanic /\
+                   (forall f, @DErr (list bytes) = DFrame f -> fsize f <= N.max FL P)).
+  { splits; [apply inv_reset|cbn; lia|discriminate|discriminate]. }
+  unfold Model.dec. unfold psz in HP.
+  destruct (ppayload p) as [|b0 [|b1 rest]]; try exact Hreset.
+  cbn [nlen] in HP.
+  destruct (b0 / 4 =? 0); cbn [negb]; [|exact Hreset].
+  destruct (b0 mod 4 =? 0).
+  - pose proof (agg_loop_spec (0 :: rest) rest []) as Ha.
+    destruct (agg_loop (0 :: rest) rest []) as [fs| |].
+    + splits; [apply inv_clean|cbn; lia|discriminate|]. intros f E; injection E as <-.
+      unfold fsize in *. cbn [concat nlen] in Ha. specialize (Ha ltac:(cbn [nlen]; lia)). lia.
+    + splits; [apply inv_clean|cbn; lia|discriminate|discriminate].
+    + exfalso. apply Ha. cbn [nlen]. lia.
+  - destruct (b0 mod 4 <=? 2).
+    + pose proof (K_np rest) as Hnp. destruct (ac3 rest) as [sz| |] eqn:E; [|exact Hreset|congruence].
+      pose proof (K_max _ _ E) as Hmx. pose proof (K_len _ _ E) as Hl5.
+      splits; [|cbn [dsize]; lia|discriminate|discriminate].
+      unfold Inv; cbn [dsize dfrags dexp concat]. rewrite app_nil_r. splits; [reflexivity|lia|].
+      intros _. exists sz. split; [assumption|lia].
+    + destruct (N.eqb_spec (dsize d) 0) as [Hz0|Hz0].
+      { splits; [assumption|assumption|discriminate|discriminate]. }
+      destruct (pseq p =? dnext d); cbn [negb]; [|exact Hreset].
+      destruct HI as (Hs & Hz & Hexp). destruct Hexp as (S & HS & HSe); [lia|].
+      destruct (Z.ltb_spec (dexp d - Z.of_N (nlen rest)) 0) as [|Hge]; [exact Hreset|].
+      destruct (Z.ltb_spec 0 (dexp d - Z.of_N (nlen rest))) as [Hmore|Hdone].
+      * splits; [|cbn [dsize]; lia|discriminate|discriminate].
+        unfold Inv; cbn [dsize dfrags dexp]. rewrite concat_snoc, nlen_app. splits; [lia|lia|].
+        intros _. exists S. split; [assumption|lia].
+      * cbn [dfrags dsize].
+        replace (dsize d + nlen rest) with (nlen (concat (dfrags d ++ [rest])))
+          by (rewrite concat_snoc, nlen_app; lia).
+        rewrite join_exact. splits; [apply inv_reset|cbn; lia|discriminate|].
+        intros f E; injection E as <-. unfold fsize; cbn [concat]. rewrite app_nil_r, concat_snoc, nlen_app. lia.
+Qed.
+
+Lemma dec_run_spec P hist : forall d, Inv d -> dsize d <= N.max FL P -> Forall (fun p => psz p <= P) hist ->
+  let '(d', rs) := dec_run d hist in
+  Inv d' /\ dsize d' <= N.max FL P /\ ~ In DPanic rs /\ forall f, In (DFrame f) rs -> fsize f <= N.max FL P.
+Proof.
+  induction hist as [|p t IH]; intros d HI HB HF; cbn [Model.dec_run].
+  - splits; [assumption|assumption|intros []|intros f []].
+  - inversion HF as [|? ? Hp Ht]; subst.
+    pose proof (dec_step P d p HI HB Hp) as Hstep. destruct (dec d p) as [d' r].
+    destruct Hstep as (HI' & HB' & Hnp & Hfr).
+    specialize (IH d' HI' HB' Ht). destruct (dec_run d' t) as [d'' rs].
+    destruct IH as (HI'' & HB'' & Hnp' & Hfr').
+    assert (G : Inv d'' /\ dsize d'' <= N.max FL P /\ ~ In DPanic (r :: rs) /\
+                forall f, In (DFrame f) (r :: rs) -> fsize f <= N.max FL P).
+    { splits; [assumption|assumption| |].
+      - intros [H|H]; [congruence|contradiction].
+      - intros f [H|H]; [now apply Hfr|now apply Hfr']. }
+    destruct r; try exact G. congruence.
+Qed.
+
+Lemma hist_bound (hist : list packet) : exists P, Forall (fun p => psz p <= P) hist.
+Proof.
+  induction hist as [|p t [P HF]]; [exists 0; constructor|].
+  exists (N.max P (psz p)). constructor; [lia|]. eapply Forall_impl; [|exact HF]. cbn. intros; lia.
+Qed.
+
+Theorem total hist : ~ In DPanic (snd (dec_run dinit hist)).
+Proof.
+  destruct (hist_bound hist) as [P HF]. pose proof (dec_run_spec P hist dinit inv_init ltac:(cbn; lia) HF) as H.
+  destruct (dec_run dinit hist) as [d rs]. cbn [snd]. tauto.
+Qed.
+
+(* retained BYTES and returned frames are bounded *)
+Theorem bounded_bytes P hist :
+  Forall (fun p => psz p <= P) hist ->
+  let '(d, rs) := dec_run dinit hist in
+  fst (retained d) <= N.max FL P /\ forall f, In (DFrame f) rs -> fsize f <= N.max FL P.
+Proof.
+  intros HF. pose proof (dec_run_spec P hist dinit inv_init ltac:(cbn; lia) HF) as H. destruct (dec_run dinit hist) as [d rs].
+  destruct H as ((Hs & _) & HB & _ & Hfr). unfold retained; cbn [fst]. split; [lia|assumption].
+Qed.
+
+(* ---- F6: zero-length frame-type-3 fragments are appended without bound (any parser) ---- *)
+Fixpoint empties (seq : N) (k : nat) : list packet :=
+  match k with
+  | O => []
+  | S k' => mkPkt seq 0 false [3; 2] :: empties (seq_next seq) k'
+  end.
+
+Lemma empties_run k : forall d, dsize d <> 0 -> (0 < dexp d)%Z ->
+  exists nx, dec_run d (empties (dnext d) k) =
+    (mkD (dfirst d) (dfrags d ++ repeat [] k) (dsize d) (dexp d) nx, repeat DMore k).
+Proof.
+  clear K_np K_pos K_len K_max.
+  induction k as [|k IH]; intros d Hz He.
+  - exists (dnext d). cbn [empties Model.dec_run repeat]. rewrite app_nil_r. destruct d; reflexivity.
+  - cbn [empties Model.dec_run]. unfold Model.dec. cbn [ppayload pseq nlen].
+    change (3 / 4 =? 0) with true. change (3 mod 4 =? 0) with false. change (3 mod 4 <=? 2) with false. cbn [negb].
+    destruct (N.eqb_spec (dsize d) 0); [contradiction|]. rewrite N.eqb_refl. cbn [negb].
+    change (Z.of_N 0) with 0%Z. rewrite Z.sub_0_r, N.add_0_r.
+    destruct (Z.ltb_spec (dexp d) 0); [lia|]. destruct (Z.ltb_spec 0 (dexp d)); [|lia].
+    set (d1 := mkD (dfirst d) (dfrags d ++ [[]]) (dsize d) (dexp d) (seq_next (dnext d))).
+    destruct (IH d1 Hz He) as (nx & Hr). unfold d1 in Hr at 2; cbn [dnext] in Hr. rewrite Hr.
+    exists nx. unfold d1; cbn [dfirst dfrags dsize dexp repeat]. rewrite <- app_assoc. reflexivity.
+Qed.
+
+End D.
+
+(* ====================================================================================== *)
+(* ---------- round trip (C03) and resynchronisation (C07) ---------- *)
+Section R.
+Variable ac3 : bytes -> pres.
+Variable FL : N.
+Variable max : N.
+Hypothesis K_np  : forall b, ac3 b <> PPanic.
+Hypothesis K_pos : forall b sz, ac3 b = POk sz -> 0 < sz.
+Hypothesis K_len : forall b sz, ac3 b = POk sz -> 5 <= nlen b.
+Hypothesis K_pre : forall a b, 5 <= nlen a -> ac3 (a ++ b) = ac3 a.
+Hypothesis Hmax : 9 <= max.      (* avail = max - 4 must hold the 5 bytes the parser insists on *)
+
+Notation dec := (dec ac3).
+Notation dec_run := (dec_run ac3).
+Notation agg_loop := (agg_loop ac3).
+
+(* a syncframe whose length is the one its own syncinfo announces *)
+Definition valid_au (f : bytes) : Prop := ac3 f = POk (nlen f).
+Definition valid_frame (fs : list bytes) : Prop := fs <> [] /\ Forall valid_au fs.
+Definition ready (d : dstate) : Prop := dsize d = 0 /\ dfrags d = [] /\ dfirst d = true.
+
+Lemma valid_au_len f : valid_au f -> 5 <= nlen f.
+Proof. intros H. eapply K_len; eassumption. Qed.
+
+Lemma agg_loop_ok B : forall frames fuel, B <> [] -> Forall valid_au B -> nlen (concat B) < nlen fuel ->
+  agg_loop fuel (concat B) frames = ADone (frames ++ B).
+Proof.
+  induction B as [|f t IH]; intros frames fuel Hne Hv Hf; [contradiction|].
+  inversion Hv as [|? ? Hvf Hvt]; subst. pose proof (valid_au_len f Hvf) as Hl5.
+  destruct fuel as [|f0 fuel]; [cbn [nlen] in Hf; lia|]. cbn [Model.agg_loop concat].
+  rewrite K_pre by assumption. rewrite Hvf. rewrite nlen_app.
+  destruct (N.ltb_spec (nlen f + nlen (concat t)) (nlen f)); [lia|].
+  rewrite ndrop_app_exact, ntake_app_exact.
+  destruct t as [|f2 t2].
+  - cbn [concat]. reflexivity.
+  - specialize (IH (frames ++ [f]) fuel ltac:(discriminate) Hvt).
+    assert (Hfl : nlen (concat (f2 :: t2)) < nlen fuel).
+    { change (concat (f :: f2 :: t2)) with (f ++ concat (f2 :: t2)) in Hf. rewrite nlen_app in Hf. cbn [nlen] in Hf. lia. }
+    assert (Hc2 : 5 <= nlen (concat (f2 :: t2))).
+    { pose proof (valid_au_len f2 (Forall_inv Hvt)) as H5. cbn [concat]. rewrite nlen_app. lia. }
+    destruct (concat (f2 :: t2)) as [|y yt].
+    + cbn [nlen] in Hc2. lia.
+    + rewrite IH by assumption. now rewrite <- app_assoc.
+Qed.
+
+(* an aggregated packet: from ANY decoder state (a frame-type-0 packet drops whatever was pending) *)
+Lemma dec_agg B d seq ts cnt : B <> [] -> Forall valid_au B ->
+  exists d', dec d (mkPkt seq ts true ([0; cnt] ++ concat B)) = (d', DFrame B) /\ ready d'.
+Proof.
+  intros Hne Hv. unfold Model.dec. cbn [ppayload app].
+  change (0 / 4 =? 0) with true. change (0 mod 4 =? 0) with true. cbn [negb].
+  rewrite agg_loop_ok; [|assumption|assumption|cbn [nlen]; lia].
+  eexists. split; [reflexivity|]. unfold ready; cbn. tauto.
+Qed.
+
+Definition settled_as (d0 d' : dstate) : Prop := dsize d' = 0 /\ dfrags d' = [] /\ dfirst d' = dfirst d0.
+
+Lemma dec_cont d seq ts m pc x : dsize d <> 0 -> seq = dnext d -> (Z.of_N (nlen x) <= dexp d)%Z ->
+  dec d (mkPkt seq ts m ([3; pc] ++ x)) =
+  (let exp' := (dexp d - Z.of_N (nlen x))%Z in
+   let d' := mkD (dfirst d) (dfrags d ++ [x]) (dsize d + nlen x) exp' (seq_next (dnext d)) in
+   if (0 <? exp')%Z then (d', DMore)
+   else match join (dfrags d') (dsize d') with
+        | Some f => (dreset d', DFrame [f])
+        | None => (d', DPanic)
+        end).
+Proof.
+  intros Hz Hs Hex. unfold Model.dec. cbn [ppayload pseq app].
+  change (3 / 4 =? 0) with true. change (3 mod 4 =? 0) with false. change (3 mod 4 <=? 2) with false. cbn [negb].
+  destruct (N.eqb_spec (dsize d) 0); [contradiction|]. destruct (N.eqb_spec seq (dnext d)); [|contradiction]. cbn [negb].
+  destruct (Z.ltb_spec (dexp d - Z.of_N (nlen x)) 0); [lia|]. reflexivity.
+Qed.
+
+(* the remaining pieces of a fragmented frame *)
+Lemma dec_rest ts pc cs : forall d seq,
+  cs <> [] -> Forall (fun x => x <> []) cs -> dsize d <> 0 -> seq = dnext d ->
+  dexp d = Z.of_N (nlen (concat cs)) -> dsize d = nlen (concat (dfrags d)) ->
+  exists d', dec_run d (frag_pkts seq ts 3 pc cs) =
+    (d', repeat DMore (length cs - 1) ++ [DFrame [concat (dfrags d) ++ concat cs]]) /\ settled_as d d'.
+Proof.
+  induction cs as [|x t IH]; intros d seq Hne Hnn Hz Hseq Hexp Hsz; [contradiction|].
+  inversion Hnn as [|? ? Hx Hnt]; subst seq. cbn [concat] in Hexp. rewrite nlen_app in Hexp.
+  cbn [frag_pkts Model.dec_run]. rewrite dec_cont; [|assumption|reflexivity|lia].
+  assert (Hxl : 0 < nlen x) by (destruct x; [contradiction|cbn [nlen]; lia]).
+  cbv zeta. destruct t as [|x2 t2].
+  - cbn [concat nlen] in Hexp. replace (dexp d - Z.of_N (nlen x))%Z with 0%Z by lia. cbn [Z.ltb Z.compare].
+    cbn [dfrags dsize]. replace (dsize d + nlen x) with (nlen (concat (dfrags d ++ [x]))) by (rewrite concat_snoc, nlen_app; lia).
+    rewrite join_exact. cbn [frag_pkts Model.dec_run length Nat.sub repeat app concat]. rewrite concat_snoc, app_nil_r.
+    eexists. split; [reflexivity|]. unfold settled_as; cbn. tauto.
+  - assert (Hx2 : 0 < nlen (concat (x2 :: t2))).
+    { pose proof (Forall_inv Hnt) as Hx2. cbn [concat]. rewrite nlen_app. destruct x2; [contradiction|cbn [nlen]; lia]. }
+    destruct (Z.ltb_spec 0 (dexp d - Z.of_N (nlen x))); [|lia].
+    set (d1 := mkD (dfirst d) (dfrags d ++ [x]) (dsize d + nlen x) (dexp d - Z.of_N (nlen x)) (seq_next (dnext d))).
+    destruct (IH d1 (seq_next (dnext d))) as (d' & Hrun & Hst).
+    + discriminate.
+    + assumption.
+    + unfold d1; cbn [dsize]. lia.
+    + reflexivity.
+    + unfold d1; cbn [dexp]. lia.
+    + unfold d1; cbn [dsize dfrags]. rewrite concat_snoc, nlen_app. lia.
+    + cbv iota beta. rewrite Hrun. exists d'. split; [|exact Hst].
+      unfold d1; cbn [dfrags]. rewrite concat_snoc, <- app_assoc.
+      cbn [length Nat.sub]. rewrite Nat.sub_0_r. cbn [concat]. reflexivity.
+Qed.
+
+(* all the packets of one fragmented frame (at least two, since the frame did not fit), from ANY state *)
+Lemma dec_group ts f ft pc : forall d seq, valid_au f -> max - 4 < nlen f -> (ft = 1 \/ ft = 2) ->
+  let cs := chunks (max - 4) f in
+  exists d', dec_run d (frag_pkts seq ts ft pc cs) = (d', repeat DMore (length cs - 1) ++ [DFrame [f]]) /\ ready d'.
+Proof.
+  intros d seq Hv Hbig Hft cs. pose proof (valid_au_len f Hv) as Hl5.
+  assert (Hav : 0 < max - 4) by lia.
+  assert (Hfne : f <> []) by (intros ->; cbn in Hl5; lia).
+  assert (Hcc : concat cs = f) by (apply chunks_concat; assumption).
+  assert (Hcb : Forall (fun x => x <> []) cs).
+  { pose proof (chunks_bounds (max - 4) f Hav) as Hb. eapply Forall_impl; [|exact Hb]. intros x [Hx _] ->. cbn in Hx. lia. }
+  unfold cs in *. rewrite chunks_cons in * by assumption.
+  set (c1 := ntake (max - 4) f) in *. set (t := chunks (max - 4) (ndrop (max - 4) f)) in *.
+  assert (Hc1 : 5 <= nlen c1 /\ nlen c1 < nlen f) by (unfold c1; rewrite nlen_ntake; lia).
+  assert (Hf : f = c1 ++ concat t) by (cbn [concat] in Hcc; congruence).
+  assert (Hm1 : ac3 c1 = POk (nlen f)).
+  { pose proof (K_pre c1 (concat t) (proj1 Hc1)) as Hk. rewrite <- Hf in Hk. rewrite Hv in Hk. now symmetry. }
+  assert (Htne : t <> []).
+  { intros E. rewrite E in Hf. cbn [concat] in Hf. rewrite app_nil_r in Hf. rewrite <- Hf in Hc1. lia. }
+  cbn [frag_pkts Model.dec_run]. unfold Model.dec at 1. cbn [ppayload pseq app].
+  assert (Hb0 : (ft / 4 =? 0) = true /\ (ft mod 4 =? 0) = false /\ (ft mod 4 <=? 2) = true)
+    by (destruct Hft as [-> | ->]; splits; reflexivity).
+  destruct Hb0 as (E1 & E2 & E3). rewrite E1, E2, E3. cbn [negb]. rewrite Hm1.
+  destruct t as [|x2 t2]; [contradiction|].
+  set (d1 := mkD true [c1] (nlen c1) (Z.of_N (nlen f) - Z.of_N (nlen c1)) (seq_next seq)).
+  assert (Hfl : nlen f = nlen c1 + nlen (concat (x2 :: t2))) by (rewrite Hf at 1; apply nlen_app).
+  destruct (dec_rest ts pc (x2 :: t2) d1 (seq_next seq)) as (d' & Hrun & Hst).
+  - discriminate.
+  - exact (Forall_inv_tail Hcb).
+  - unfold d1; cbn [dsize]. lia.
+  - reflexivity.
+  - unfold d1; cbn [dexp]. lia.
+  - unfold d1; cbn [dsize dfrags concat]. now rewrite app_nil_r.
+  - rewrite Hrun. exists d'. split.
+    + unfold d1; cbn [dfrags]. change (concat [c1]) with (c1 ++ []). rewrite app_nil_r, <- Hf.
+      cbn [length Nat.sub]. rewrite Nat.sub_0_r. reflexivity.
+    + destruct Hst as (H1 & H2 & H3). unfold ready. now rewrite H1, H2, H3.
+Qed.
+
+Definition batch_valid (B : list bytes) : Prop := B <> [] /\ Forall valid_au B.
+
+Lemma dec_batch B d ts seq g : batch_valid B -> write_batch max B ts seq = Some g ->
+  exists d', dec_run d g = (d', repeat DMore (length g - 1) ++ [DFrame B]) /\ ready d'.
+Proof.
+  intros (Hne & Hv) Hw.
+  assert (Hagg : g = write_agg B ts seq ->
+     exists d', dec_run d g = (d', repeat DMore (length g - 1) ++ [DFrame B]) /\ ready d').
+  { intros ->. unfold write_agg. destruct (dec_agg B d seq ts (nlen B mod 256) Hne Hv) as (d' & Hd & Hrd).
+    cbn [Model.dec_run]. rewrite Hd. cbn [length Nat.sub repeat app]. exists d'. split; [reflexivity|assumption]. }
+  destruct B as [|a [|a2 t]]; [contradiction| |].
+  - cbn [write_batch] in Hw. destruct (N.ltb_spec (len_agg [a] None) max) as [Hlt|Hge].
+    + injection Hw as <-. now apply Hagg.
+    + unfold write_frag in Hw. destruct (N.ltb_spec max 5); [lia|]. injection Hw as <-.
+      pose proof (Forall_inv Hv) as Hva.
+      assert (Hbig : max - 4 < nlen a) by (unfold Model.len_agg in Hge; cbn [concat nlen] in Hge; rewrite app_nil_r in Hge; lia).
+      destruct (dec_group ts a (if nlen a * 5 / 8 <=? max - 4 then 1 else 2) (nlen (chunks (max - 4) a)) d seq Hva Hbig)
+        as (d' & Hrun & Hrd).
+      { destruct (nlen a * 5 / 8 <=? max - 4); [now left|now right]. }
+      exists d'. split; [|assumption]. rewrite Hrun.
+      now rewrite frag_pkts_length.
+  - cbn [write_batch] in Hw. injection Hw as <-. now apply Hagg.
+Qed.
+
+Fixpoint expect (gs : list (list packet)) (bs : list (list bytes)) : list (dres (list bytes)) :=
+  match gs, bs with
+  | g :: gt, b :: bt => repeat DMore (length g - 1) ++ [DFrame b] ++ expect gt bt
+  | _, _ => []
+  end.
+
+Lemma dec_run_app ps1 : forall ps2 d d1 r1, dec_run d ps1 = (d1, r1) -> ~ In DPanic r1 ->
+  dec_run d (ps1 ++ ps2) = (let '(d2, r2) := dec_run d1 ps2 in (d2, r1 ++ r2)).
+Proof.
+  induction ps1 as [|p t IH]; intros ps2 d d1 r1 H Hnp; cbn [Model.dec_run app] in *.
+  - injection H as <- <-. destruct (dec_run d ps2); reflexivity.
+  - destruct (dec d p) as [d' r].
+    destruct r; try (destruct (dec_run d' t) as [d'' rs] eqn:E; injection H as <- <-;
+      rewrite (IH ps2 d' d'' rs E) by (intros Hin; apply Hnp; now right);
+      destruct (dec_run d'' ps2); reflexivity).
+    injection H as <- <-. exfalso. apply Hnp. now left.
+Qed.
+
+Lemma no_panic_expected n (B : list bytes) : ~ In DPanic (repeat (@DMore (list bytes)) n ++ [DFrame B]).
+Proof.
+  intros H. apply in_app_or in H. destruct H as [H|[H|[]]]; [|discriminate].
+  apply repeat_spec in H. discriminate.
+Qed.
+
+Lemma dec_groups bs : forall gs ts seq d, enc_groups max bs ts seq = Some gs -> Forall batch_valid bs ->
+  exists d', dec_run d (concat gs) = (d', expect gs bs) /\ (bs <> [] -> ready d') /\ (bs = [] -> d' = d).
+Proof.
+  induction bs as [|b t IH]; intros gs ts seq d Hg Hv; cbn [enc_groups] in Hg.
+  - injection Hg as <-. exists d. cbn. splits; auto. intros H; contradiction.
+  - inversion Hv as [|? ? Hb Ht]; subst.
+    destruct (write_batch max b ts seq) as [g|] eqn:Ew; [|discriminate].
+    destruct (enc_groups max t _ _) as [gt|] eqn:Eg; [|discriminate]. cbn [option_map] in Hg. injection Hg as <-.
+    destruct (dec_batch b d ts seq g Hb Ew) as (d1 & Hr1 & Hrd1).
+    destruct (IH gt _ _ d1 Eg Ht) as (d2 & Hr2 & Hrd2 & Heq2).
+    cbn [concat expect]. rewrite (dec_run_app g (concat gt) d d1 _ Hr1 (no_panic_expected _ _)), Hr2.
+    exists d2. splits.
+    + now rewrite <- app_assoc.
+    + intros _. destruct t as [|b2 t2]; [rewrite (Heq2 eq_refl); assumption|apply Hrd2; discriminate].
+    + discriminate.
+Qed.
+
+Lemma batches_valid f : valid_frame f -> Forall batch_valid (batch_loop max f []).
+Proof.
+  intros (Hne & Hv). rewrite Forall_forall. intros B HB.
+  pose proof (batch_loop_concat max f []) as Hcat. cbn [app] in Hcat.
+  pose proof (batch_loop_nonempty max f [] (or_intror Hne)) as Hnn. rewrite Forall_forall in Hnn.
+  split; [now apply Hnn|]. rewrite Forall_forall in *. intros a Ha. apply Hv. rewrite <- Hcat. apply in_concat. exists B. split; assumption.
+Qed.
+
+Lemma valid_nonempty f : valid_frame f -> Forall (fun a : bytes => a <> []) f.
+Proof.
+  intros (_ & Hv). eapply Forall_impl; [|exact Hv]. intros a Ha ->. pose proof (valid_au_len [] Ha) as H. cbn in H. lia.
+Qed.
+
+Definition frames_of (rs : list (dres (list bytes))) : list bytes :=
+  flat_map (fun r => match r with DFrame x => x | _ => [] end) rs.
+Definition progress (r : dres (list bytes)) : Prop := r = DMore \/ exists x, r = DFrame x.
+Lemma frames_of_app a b : frames_of (a ++ b) = frames_of a ++ frames_of b.
+Proof. unfold frames_of. apply flat_map_app. Qed.
+Lemma frames_of_more n : frames_of (repeat DMore n) = [].
+Proof. induction n as [|k IH]; [reflexivity|]. cbn [repeat]. exact IH. Qed.
+Lemma expect_frames gs : forall bs, length gs = length bs ->
+  frames_of (expect gs bs) = concat bs /\ Forall progress (expect gs bs).
+Proof.
+  induction gs as [|g gt IH]; intros [|b bt] H; cbn [length] in H; try discriminate.
+  - split; [reflexivity|constructor].
+  - cbn [expect concat]. destruct (IH bt) as [H1 H2]; [lia|].
+    rewrite !frames_of_app, frames_of_more, H1. cbn [app]. split; [unfold frames_of; cbn; now rewrite app_nil_r|].
+    apply Forall_app. split; [|constructor; [right; eexists; reflexivity|assumption]].
+    apply Forall_forall. intros r Hr. apply repeat_spec in Hr. now left.
+Qed.
+
+(* C03 and C07 at once: from ANY decoder state *)
+Theorem roundtrip seq f d : valid_frame f -> seq < 65536 ->
+  exists gs d', enc max seq f = Some (concat gs, seq_add seq (nlen (concat gs))) /\
+    dec_run d (concat gs) = (d', expect gs (batch_loop max f [])) /\ ready d' /\
+    concat (batch_loop max f []) = f /\ length gs = length (batch_loop max f []).
+Proof.
+  intros Hv Hs.
+  destruct (enc_wellformed max ltac:(lia) seq f Hs (valid_nonempty f Hv)) as (gs & Hg & He & _ & _ & Hlen).
+  pose proof (batch_loop_concat max f []) as Hcat. cbn [app] in Hcat.
+  destruct (dec_groups _ gs 0 seq d Hg (batches_valid f Hv)) as (d' & Hr & Hrd & _).
+  exists gs, d'. splits; try assumption.
+  - apply Hrd. apply batch_loop_ne.
+  - rewrite !nlen_length in Hlen. lia.
+Qed.
+
+Theorem roundtrip_frames seq f d : valid_frame f -> seq < 65536 ->
+  exists ps seq' d' rs, enc max seq f = Some (ps, seq') /\ dec_run d ps = (d', rs) /\
+    frames_of rs = f /\ Forall progress rs /\ ready d'.
+Proof.
+  intros Hv Hs. destruct (roundtrip seq f d Hv Hs) as (gs & d' & He & Hr & Hrd & Hcat & Hlen).
+  destruct (expect_frames gs _ Hlen) as [H1 H2].
+  exists (concat gs), (seq_add seq (nlen (concat gs))), d', (expect gs (batch_loop max f [])).
+  splits; try assumption. now rewrite H1.
+Qed.
+
+Theorem roundtrip_seq fs : Forall valid_frame fs -> forall seq d, seq < 65536 ->
+  exists pss d' rs, enc_many max seq fs = Some pss /\ dec_run d (concat pss) = (d', rs) /\
+    frames_of rs = concat fs /\ Forall progress rs.
+Proof.
+  induction 1 as [|f t Hf Ht IH]; intros seq d Hs.
+  - exists [], d, []. cbn. splits; auto; constructor.
+  - destruct (roundtrip_frames seq f d Hf Hs) as (ps & seq' & d1 & r1 & He & Hr1 & Hf1 & Hp1 & _).
+    assert (Hs' : seq' < 65536).
+    { destruct (roundtrip seq f d Hf Hs) as (gs & ? & He' & _). rewrite He in He'. injection He' as _ ->. apply seq_add_lt. }
+    destruct (IH seq' d1 Hs') as (pss & d2 & r2 & Hem & Hr2 & Hf2 & Hp2).
+    exists (ps :: pss), d2, (r1 ++ r2). cbn [enc_many]. rewrite He, Hem. cbn [option_map concat]. splits.
+    + reflexivity.
+    + rewrite (dec_run_app ps (concat pss) d d1 r1 Hr1), Hr2; [reflexivity|].
+      intros Hin. rewrite Forall_forall in Hp1. destruct (Hp1 _ Hin) as [E|[x E]]; discriminate.
+    + now rewrite frames_of_app, Hf1, Hf2.
+    + apply Forall_app. split; assumption.
+Qed.
+
+(* C07: after ANY packet history an intact frame is returned exactly as in the loss-free case *)
+Theorem resync hist f s : valid_frame f -> s < 65536 ->
+  exists ps q d' rs, enc max s f = Some (ps, q) /\
+    dec_run (fst (dec_run dinit hist)) ps = (d', rs) /\ frames_of rs = f /\ Forall progress rs /\ ready d'.
+Proof. intros Hv Hs. apply roundtrip_frames; assumption. Qed.
+
+End R.
+
+(* ====================================================================================== *)
+(* ---------- the contract holds for the re-modelled mediacommon parser ---------- *)
+Definition FLmax : N := 3840.   (* 1920 words *)
+
+Lemma ac3_parse_spec buf :
+  match ac3_parse buf with
+  | PPanic => False
+  | PErr => True
+  | POk sz => 0 < sz /\ sz <= FLmax /\ 5 <= nlen buf
+  end.
+Proof.
+  unfold ac3_parse. destruct buf as [|b0 [|b1 [|b2 [|b3 [|b4 rest]]]]]; try exact I.
+  destruct (negb _); [exact I|].
+  destruct (N.leb_spec 3 (b4 / 64)) as [|Hf]; [exact I|].
+  destruct (N.leb_spec 38 (b4 mod 64)) as [|Hc]; [exact I|].
+  destruct (nnth_lt frame_sizes (b4 mod 64)) as [row Hrow]; [cbn; lia|]. rewrite Hrow.
+  apply nnth_In in Hrow.
+  assert (Hr : nlen row = 3 /\ Forall (fun w => 64 <= w <= 1920) row).
+  { cbn in Hrow. repeat (destruct Hrow as [<-|Hrow]; [split; [reflexivity|repeat constructor; lia]|]). contradiction. }
+  destruct Hr as [Hr3 Hrw].
+  destruct (nnth_lt row (b4 / 64)) as [w Hw]; [lia|]. rewrite Hw. apply nnth_In in Hw.
+  rewrite Forall_forall in Hrw. specialize (Hrw w Hw). unfold FLmax. cbn [nlen]. lia.
+Qed.
+
+Lemma ac3_np b : ac3_parse b <> PPanic.
+Proof. pose proof (ac3_parse_spec b) as H. destruct (ac3_parse b); [discriminate|discriminate|contradiction]. Qed.
+Lemma ac3_pos b sz : ac3_parse b = POk sz -> 0 < sz.
+Proof. intros E. pose proof (ac3_parse_spec b) as H. rewrite E in H. tauto. Qed.
+Lemma ac3_len b sz : ac3_parse b = POk sz -> 5 <= nlen b.
+Proof. intros E. pose proof (ac3_parse_spec b) as H. rewrite E in H. tauto. Qed.
+Lemma ac3_max b sz : ac3_parse b = POk sz -> sz <= FLmax.
+Proof. intros E. pose proof (ac3_parse_spec b) as H. rewrite E in H. tauto. Qed.
+Lemma ac3_pre a b : 5 <= nlen a -> ac3_parse (a ++ b) = ac3_parse a.
+Proof.
+  intros H. destruct a as [|b0 [|b1 [|b2 [|b3 [|b4 rest]]]]]; cbn [nlen] in H; try lia. reflexivity.
+Qed.
+
+Ltac contract := first [exact ac3_np|exact ac3_pos|exact ac3_len|exact ac3_max|exact ac3_pre|assumption].
+
+Theorem total_ac3 hist : ~ In DPanic (snd (dec_run ac3_parse dinit hist)).
+Proof. apply (total ac3_parse FLmax); contract. Qed.
+
+Theorem bounded_bytes_ac3 P hist :
+  Forall (fun p => psz p <= P) hist ->
+  let '(d, rs) := dec_run ac3_parse dinit hist in
+  fst (retained d) <= N.max FLmax P /\ forall f, In (DFrame f) rs -> fsize f <= N.max FLmax P.
+Proof. apply (bounded_bytes ac3_parse FLmax); contract. Qed.
+
+(* F6, for the concrete decoder: a 7-byte start fragment announcing a 2560-byte frame, then n
+   two-byte frame-type-3 packets with consecutive sequence numbers: 5 bytes retained, n+1 slice headers *)
+Lemma concat_repeat_nil {A} n : concat (repeat (@nil A) n) = [].
+Proof. induction n as [|k IH]; [reflexivity|]. cbn [repeat concat app]. exact IH. Qed.
+
+Definition f6_start : packet := mkPkt 10 0 false [1; 2; 11; 119; 0; 0; 37].
+Theorem slices_unbounded n :
+  exists hist, Forall (fun p => psz p <= 7) hist /\
+    retained (fst (dec_run ac3_parse dinit hist)) = (5, N.of_nat n + 1) /\
+    ~ In DErr (snd (dec_run ac3_parse dinit hist)).
+Proof.
+  exists (f6_start :: empties 11 n).
+  assert (Hst : dec ac3_parse dinit f6_start = (mkD true [[11; 119; 0; 0; 37]] 5 2555%Z 11, DMore)) by (vm_compute; reflexivity).
+  splits.
+  - constructor; [vm_compute; discriminate|]. generalize 11. induction n as [|k IH]; intros s; cbn [empties]; constructor; [vm_compute; discriminate|apply IH].
+  - cbn [Model.dec_run]. rewrite Hst.
+    destruct (empties_run ac3_parse n (mkD true [[11; 119; 0; 0; 37]] 5 2555%Z 11)) as (nx & Hr); [discriminate|reflexivity|].
+    cbn [dnext] in Hr. rewrite Hr. cbn [fst]. unfold retained; cbn [dfrags fst snd]. f_equal.
+    + rewrite concat_app, concat_repeat_nil. reflexivity.
+    + rewrite nlen_app, nlen_repeat. cbn [nlen]. lia.
+  - cbn [Model.dec_run]. rewrite Hst.
+    destruct (empties_run ac3_parse n (mkD true [[11; 119; 0; 0; 37]] 5 2555%Z 11)) as (nx & Hr); [discriminate|reflexivity|].
+    cbn [dnext] in Hr. rewrite Hr. cbn [snd]. intros [H|H]; [discriminate|]. apply repeat_spec in H. discriminate.
+Qed.
+
+Theorem roundtrip_ac3 max : 9 <= max -> forall seq f d, valid_frame ac3_parse f -> seq < 65536 ->
+  exists gs d', enc max seq f = Some (concat gs, seq_add seq (nlen (concat gs))) /\
+    dec_run ac3_parse d (concat gs) = (d', expect gs (batch_loop max f [])) /\ ready d' /\
+    concat (batch_loop max f []) = f /\ length gs = length (batch_loop max f []).
+Proof. intros Hm. apply (roundtrip ac3_parse max); contract. Qed.
+
+Theorem roundtrip_frames_ac3 max : 9 <= max -> forall seq f d, valid_frame ac3_parse f -> seq < 65536 ->
+  exists ps seq' d' rs, enc max seq f = Some (ps, seq') /\ dec_run ac3_parse d ps = (d', rs) /\
+    frames_of rs = f /\ Forall progress rs /\ ready d'.
+Proof. intros Hm. apply (roundtrip_frames ac3_parse max); contract. Qed.
+
+Theorem roundtrip_seq_ac3 max : 9 <= max -> forall fs, Forall (valid_frame ac3_parse) fs -> forall seq d, seq < 65536 ->
+  exists pss d' rs, enc_many max seq fs = Some pss /\ dec_run ac3_parse d (concat pss) = (d', rs) /\
+    frames_of rs = concat fs /\ Forall progress rs.
+Proof. intros Hm. apply (roundtrip_seq ac3_parse max); contract. Qed.
+
+Theorem resync_ac3 max : 9 <= max -> forall hist f s, valid_frame ac3_parse f -> s < 65536 ->
+  exists ps q d' rs, enc max s f = Some (ps, q) /\
+    dec_run ac3_parse (fst (dec_run ac3_parse dinit hist)) ps = (d', rs) /\ frames_of rs = f /\ Forall progress rs /\ ready d'.
+Proof. intros Hm. apply (resync ac3_parse max); contract. Qed.
